@@ -1,3 +1,519 @@
-// placeholder
+// Reconstruction of the two token sequences / texts from an op list (C04, C17).  Pure ghost text: nothing in this
+// file is executable code of /repo.
+//
+// Setting: abstract token sequences `old_t`, `new_t` (any token type A; A = Seq<u8> for text) and an op list that is
+// a complete cursor-valid script for the box (0,0,N,M) in the INDEX-ONLY sense `idx_script` below (Replace allowed:
+// text diffs are captured through the Replace adapter).  `idx_script` is implied by
+//   * opspec's `ops_full(old, new, ops, OBox{0,0,N,M}, exact=false)`            (lemma_script_of_ops_full), and by
+//   * the capture contract `cap_post` of common.rs, i.e. acceptance by the exact checker `xrun` from (0,0) to (N,M)
+//     (lemma_script_of_xrun; common.rs itself is not included here - it needs every algorithm - so the lemma is
+//     stated on the body of `cap_post`).
+// HYPOTHESES of the C04 / C17 statements that are NOT decided here (see the lemmas' `requires`):
+//   H-TOK  (C06) the tokenizer is lossless: `tokens_partition(text.bytes(), tokens)` and no token is empty;
+//   H-EQ   (C02 + PartialEq of str / [u8]) an Equal op pairs identical tokens: `equal_ok(ops, old_t, new_t)`
+//          (derived from the checker's relation by lemma_equal_ok_of_rel when `rel(i, j) ==> old_t[i] == new_t[j]`);
+//   H-CLONE the value of a Change is a clone of the item at `ChangeSpec.idx` (contract `change_is` of
+//          ChangesIter::next, C13, decided in unit itr) and cloning a `&T` token yields the same token.
 verus! {
+
+// ---------------------------------------------------------------------------------------------
+// index-only scripts
+// ---------------------------------------------------------------------------------------------
+/// the index an op carries for every side it consumes is the number of items the ops before it consumed there
+/// (the other-side index a Delete / Insert carries is not constrained)
+pub open spec fn at_cursor(ops: Seq<DiffOp>, i: int) -> bool {
+    match ops[i] {
+        DiffOp::Equal { old_index, new_index, len } => old_index == osum(ops, i) && new_index == nsum(ops, i),
+        DiffOp::Delete { old_index, old_len, new_index } => old_index == osum(ops, i),
+        DiffOp::Insert { old_index, new_index, new_len } => new_index == nsum(ops, i),
+        DiffOp::Replace { old_index, old_len, new_index, new_len } => old_index == osum(ops, i) && new_index == nsum(ops, i),
+    }
+}
+
+/// a complete script for N old and M new items
+pub open spec fn idx_script(ops: Seq<DiffOp>, n: int, m: int) -> bool {
+    n <= usize::MAX && m <= usize::MAX
+    && (forall|i: int| 0 <= i < ops.len() ==> #[trigger] at_cursor(ops, i))
+    && osum(ops, ops.len() as int) == n && nsum(ops, ops.len() as int) == m
+}
+
+/// prefix sums do not depend on what follows (local copies of compact_lemmas' lemma_sums_push / lemma_sums_mono, so
+/// that this unit does not pull in the compaction lemmas)
+pub proof fn lemma_psum_push(ops: Seq<DiffOp>, x: DiffOp, i: int)
+    requires 0 <= i <= ops.len(),
+    ensures osum(ops.push(x), i) == osum(ops, i), nsum(ops.push(x), i) == nsum(ops, i),
+    decreases i
+{
+    if i > 0 { lemma_psum_push(ops, x, i - 1); assert(ops.push(x)[i - 1] == ops[i - 1]); }
+}
+
+pub proof fn lemma_psum_mono(ops: Seq<DiffOp>, i: int, j: int)
+    requires 0 <= i <= j,
+    ensures 0 <= osum(ops, i) <= osum(ops, j), 0 <= nsum(ops, i) <= nsum(ops, j),
+    decreases j
+{
+    if j > i { lemma_psum_mono(ops, i, j - 1); }
+    else if i > 0 { lemma_psum_mono(ops, i - 1, i - 1); }
+}
+
+pub open spec fn csum(ops: Seq<DiffOp>, old_side: bool, i: int) -> int { if old_side { osum(ops, i) } else { nsum(ops, i) } }
+
+/// position facts every op of a script satisfies
+pub proof fn lemma_script_op(ops: Seq<DiffOp>, n: int, m: int, i: int)
+    requires idx_script(ops, n, m), 0 <= i < ops.len(),
+    ensures op_wf(ops[i]), at_cursor(ops, i),
+        0 <= osum(ops, i) && osum(ops, i + 1) == osum(ops, i) + olen(ops[i]) && osum(ops, i + 1) <= n,
+        0 <= nsum(ops, i) && nsum(ops, i + 1) == nsum(ops, i) + nlen(ops[i]) && nsum(ops, i + 1) <= m,
+{
+    lemma_psum_mono(ops, 0, i);
+    lemma_psum_mono(ops, i + 1, ops.len() as int);
+    assert(at_cursor(ops, i));
+}
+
+pub proof fn lemma_script_of_ops_full<Old: Index<usize> + ?Sized, New: Index<usize> + ?Sized>(old: &Old, new: &New, ops: Seq<DiffOp>, n: int, m: int)
+  where New::Output: PartialEq<Old::Output>
+    requires ops_full(old, new, ops, OBox { o0: 0, n0: 0, oe: n, ne: m }, false),
+    ensures idx_script(ops, n, m), forall|i: int| 0 <= i < ops.len() ==> !((#[trigger] ops[i]) is Replace),
+{
+    let b = OBox { o0: 0, n0: 0, oe: n, ne: m };
+    assert forall|i: int| 0 <= i < ops.len() implies #[trigger] at_cursor(ops, i) by { assert(op_ok(old, new, ops, i, b, false)); }
+    assert forall|i: int| 0 <= i < ops.len() implies !((#[trigger] ops[i]) is Replace) by { assert(op_ok(old, new, ops, i, b, false)); }
+}
+
+/// an Equal op pairs items the relation holds for
+pub open spec fn equal_rel(rel: Rel, ops: Seq<DiffOp>) -> bool {
+    forall|i: int| 0 <= i < ops.len() ==> match #[trigger] ops[i] {
+        DiffOp::Equal { old_index, new_index, len } => forall|k: int| 0 <= k < len ==> #[trigger] relk(rel, old_index as int, new_index as int, k),
+        _ => true,
+    }
+}
+
+pub open spec fn all_sides_nonempty(ops: Seq<DiffOp>) -> bool { forall|i: int| 0 <= i < ops.len() ==> sides_nonempty(#[trigger] ops[i]) }
+
+/// what the exact checker accepted, as facts about the op list (induction over the list)
+pub proof fn lemma_xrun_ops(rel: Rel, x0: Xs, ops: Seq<DiffOp>)
+    requires x0.oc == 0, x0.nc == 0,
+    ensures ({ let xs = xrun(rel, x0, evs_of(ops)); let n = ops.len() as int;
+        xs.oc == osum(ops, n) && xs.nc == nsum(ops, n)
+        && (xs.ok ==> (forall|i: int| 0 <= i < n ==> #[trigger] at_cursor(ops, i)) && all_sides_nonempty(ops) && equal_rel(rel, ops)) }),
+    decreases ops.len()
+{
+    if ops.len() == 0 {
+        assert(evs_of(ops) =~= Seq::<Ev>::empty());
+    } else {
+        let o0 = ops.drop_last(); let x = ops.last(); let n0 = o0.len() as int;
+        lemma_xrun_ops(rel, x0, o0);
+        assert(o0.push(x) =~= ops);
+        lemma_evs_of_push(o0, x);
+        lemma_xrun_push(rel, x0, evs_of(o0), ev_of(x));
+        lemma_psum_push(o0, x, n0);
+        assert(ops[n0] == x);
+        let xs0 = xrun(rel, x0, evs_of(o0)); let xs = xrun(rel, x0, evs_of(ops));
+        assert(xs == xstep(rel, xs0, ev_of(x)));
+        if xs.ok {
+            assert(xs0.ok);
+            assert forall|i: int| 0 <= i < ops.len() implies #[trigger] at_cursor(ops, i) by {
+                lemma_psum_push(o0, x, i);
+                if i < n0 { assert(ops[i] == o0[i]); assert(at_cursor(o0, i)); }
+            }
+            assert forall|i: int| 0 <= i < ops.len() implies sides_nonempty(#[trigger] ops[i]) by {
+                if i < n0 { assert(ops[i] == o0[i]); }
+            }
+            assert forall|i: int| 0 <= i < ops.len() implies match #[trigger] ops[i] {
+                DiffOp::Equal { old_index, new_index, len } => forall|k: int| 0 <= k < len ==> #[trigger] relk(rel, old_index as int, new_index as int, k),
+                _ => true,
+            } by {
+                if i < n0 { assert(ops[i] == o0[i]); }
+            }
+        }
+    }
+}
+
+/// `cap_post(old, 0..N, new, 0..M, ops, strict)` (common.rs), unfolded, gives an index-only script in which every
+/// consumed side is non-empty and Equal ops pair related items
+pub proof fn lemma_script_of_xrun(rel: Rel, ops: Seq<DiffOp>, n: usize, m: usize, strict: bool)
+    requires ({ let xs = xrun(rel, xcanon(0, 0, n as int, m as int, strict), evs_of(ops)); xs.ok && xs.oc == n && xs.nc == m }),
+    ensures idx_script(ops, n as int, m as int), all_sides_nonempty(ops), equal_rel(rel, ops),
+{
+    lemma_xrun_ops(rel, xcanon(0, 0, n as int, m as int, strict), ops);
+}
+
+/// H-EQ: an Equal op pairs identical tokens
+pub open spec fn equal_ok<A>(ops: Seq<DiffOp>, old_t: Seq<A>, new_t: Seq<A>) -> bool {
+    forall|i: int| 0 <= i < ops.len() ==> match #[trigger] ops[i] {
+        DiffOp::Equal { old_index, new_index, len } => forall|k: int| 0 <= k < len ==> #[trigger] old_t[old_index + k] == new_t[new_index + k],
+        _ => true,
+    }
+}
+
+pub proof fn lemma_equal_ok_of_rel<A>(rel: Rel, ops: Seq<DiffOp>, old_t: Seq<A>, new_t: Seq<A>)
+    requires equal_rel(rel, ops), forall|i: int, j: int| #[trigger] rel(i, j) ==> old_t[i] == new_t[j],
+    ensures equal_ok(ops, old_t, new_t),
+{
+    assert forall|i: int| 0 <= i < ops.len() implies match #[trigger] ops[i] {
+        DiffOp::Equal { old_index, new_index, len } => forall|k: int| 0 <= k < len ==> #[trigger] old_t[old_index + k] == new_t[new_index + k],
+        _ => true,
+    } by {
+        match ops[i] {
+            DiffOp::Equal { old_index, new_index, len } => {
+                assert forall|k: int| 0 <= k < len implies #[trigger] old_t[old_index + k] == new_t[new_index + k] by {
+                    assert(relk(rel, old_index as int, new_index as int, k));
+                }
+            }
+            _ => {}
+        }
+    }
+}
+
+// ---------------------------------------------------------------------------------------------
+// (1) (2): the token ranges of the ops, flattened
+// ---------------------------------------------------------------------------------------------
+/// the tokens an op covers on one side: old side for every op that is not an Insert (Equal, Delete, Replace), new
+/// side for every op that is not a Delete (Equal, Insert, Replace)
+pub open spec fn op_side_toks<A>(op: DiffOp, t: Seq<A>, old_side: bool) -> Seq<A> {
+    if old_side { if op is Insert { Seq::empty() } else { t.subrange(op_old_index(op) as int, op_old_end(op)) } }
+    else { if op is Delete { Seq::empty() } else { t.subrange(op_new_index(op) as int, op_new_end(op)) } }
+}
+
+/// ... flattened over the first k ops, in order
+pub open spec fn side_toks<A>(ops: Seq<DiffOp>, t: Seq<A>, old_side: bool, k: int) -> Seq<A>
+    decreases k
+{
+    if k <= 0 { Seq::empty() } else { side_toks(ops, t, old_side, k - 1) + op_side_toks(ops[k - 1], t, old_side) }
+}
+
+pub proof fn lemma_side_toks_prefix<A>(ops: Seq<DiffOp>, t: Seq<A>, old_side: bool, n: int, m: int, k: int)
+    requires idx_script(ops, n, m), t.len() == (if old_side { n } else { m }), 0 <= k <= ops.len(),
+    ensures 0 <= csum(ops, old_side, k) <= t.len(), side_toks(ops, t, old_side, k) == t.subrange(0, csum(ops, old_side, k)),
+    decreases k
+{
+    if k == 0 {
+        assert(side_toks(ops, t, old_side, k) =~= t.subrange(0, 0));
+    } else {
+        lemma_side_toks_prefix(ops, t, old_side, n, m, k - 1);
+        lemma_script_op(ops, n, m, k - 1);
+        assert(side_toks(ops, t, old_side, k) =~= t.subrange(0, csum(ops, old_side, k)));
+    }
+}
+
+/// C04 / C17 (1): the old-side token ranges of the non-Insert ops, in order, are exactly the old tokens
+pub proof fn lemma_reconstruct_old<A>(ops: Seq<DiffOp>, old_t: Seq<A>, n: int, m: int)
+    requires idx_script(ops, n, m), old_t.len() == n,
+    ensures side_toks(ops, old_t, true, ops.len() as int) == old_t,
+{
+    lemma_side_toks_prefix(ops, old_t, true, n, m, ops.len() as int);
+    assert(old_t.subrange(0, n) =~= old_t);
+}
+
+/// C04 / C17 (2): the new-side token ranges of the non-Delete ops, in order, are exactly the new tokens
+pub proof fn lemma_reconstruct_new<A>(ops: Seq<DiffOp>, new_t: Seq<A>, n: int, m: int)
+    requires idx_script(ops, n, m), new_t.len() == m,
+    ensures side_toks(ops, new_t, false, ops.len() as int) == new_t,
+{
+    lemma_side_toks_prefix(ops, new_t, false, n, m, ops.len() as int);
+    assert(new_t.subrange(0, m) =~= new_t);
+}
+
+// --- bytes: what the remapped slices concatenate to (C17) ---
+/// the bytes of the slice `iter_slices` returns for an op on one side (by the contract of `slice` under `remap_hyp`:
+/// the concatenation of the op's tokens), nothing for an op that does not consume that side
+pub open spec fn op_side_bytes(op: DiffOp, t: Seq<Seq<u8>>, old_side: bool) -> Seq<u8> {
+    if old_side { if op is Insert { Seq::empty() } else { cat(t, op_old_index(op) as int, op_old_end(op)) } }
+    else { if op is Delete { Seq::empty() } else { cat(t, op_new_index(op) as int, op_new_end(op)) } }
+}
+
+pub open spec fn side_bytes(ops: Seq<DiffOp>, t: Seq<Seq<u8>>, old_side: bool, k: int) -> Seq<u8>
+    decreases k
+{
+    if k <= 0 { Seq::empty() } else { side_bytes(ops, t, old_side, k - 1) + op_side_bytes(ops[k - 1], t, old_side) }
+}
+
+pub proof fn lemma_side_bytes_prefix(ops: Seq<DiffOp>, t: Seq<Seq<u8>>, old_side: bool, n: int, m: int, k: int)
+    requires idx_script(ops, n, m), 0 <= k <= ops.len(),
+    ensures side_bytes(ops, t, old_side, k) == cat(t, 0, csum(ops, old_side, k)),
+    decreases k
+{
+    if k > 0 {
+        lemma_side_bytes_prefix(ops, t, old_side, n, m, k - 1);
+        lemma_script_op(ops, n, m, k - 1);
+        lemma_cat_split(t, 0, csum(ops, old_side, k - 1), csum(ops, old_side, k));
+        assert(cat(t, 0, csum(ops, old_side, k - 1)) + Seq::<u8>::empty() =~= cat(t, 0, csum(ops, old_side, k - 1)));
+    }
+}
+
+/// C17: concatenating the non-Insert slices over all ops gives the old text (under H-TOK)
+pub proof fn lemma_reconstruct_old_bytes(ops: Seq<DiffOp>, old_t: Seq<Seq<u8>>, n: int, m: int, text: Seq<u8>)
+    requires idx_script(ops, n, m), old_t.len() == n, tokens_partition(text, old_t),
+    ensures side_bytes(ops, old_t, true, ops.len() as int) == text,
+{
+    lemma_side_bytes_prefix(ops, old_t, true, n, m, ops.len() as int);
+}
+
+/// C17: concatenating the non-Delete slices over all ops gives the new text (under H-TOK)
+pub proof fn lemma_reconstruct_new_bytes(ops: Seq<DiffOp>, new_t: Seq<Seq<u8>>, n: int, m: int, text: Seq<u8>)
+    requires idx_script(ops, n, m), new_t.len() == m, tokens_partition(text, new_t),
+    ensures side_bytes(ops, new_t, false, ops.len() as int) == text,
+{
+    lemma_side_bytes_prefix(ops, new_t, false, n, m, ops.len() as int);
+}
+
+/// every slice request `iter_slices` makes for an op of a script with non-empty sides meets the precondition of
+/// `slice` and lies inside the token list (so `slice` returns Some and the `.expect(..)` of iter_slices does not fire
+/// when the remapper was built from N / M tokens)
+pub proof fn lemma_slice_reqs_in_script(ops: Seq<DiffOp>, n: int, m: int, i: int, j: int)
+    requires idx_script(ops, n, m), 0 <= i < ops.len(), sides_nonempty(ops[i]), 0 <= j < slice_reqs(ops[i]).len(),
+    ensures ({ let r = slice_reqs(ops[i])[j];
+        0 < r.range.end && r.range.start < r.range.end && r.range.end <= (if r.side_old { n } else { m })
+        && r.range.start == csum(ops, r.side_old, i) && r.range.end == csum(ops, r.side_old, i + 1) }),
+{
+    lemma_script_op(ops, n, m, i);
+    lemma_slice_reqs_pre(ops[i]);
+}
+
+// ---------------------------------------------------------------------------------------------
+// (3): in terms of the item-wise expansion `expand_all(ops)` (iter.rs)
+// ---------------------------------------------------------------------------------------------
+/// the entries of an expansion that `f` selects, in order
+pub open spec fn proj<A>(cs: Seq<ChangeSpec>, f: spec_fn(ChangeSpec) -> Option<A>) -> Seq<A>
+    decreases cs.len()
+{
+    if cs.len() == 0 { Seq::empty() }
+    else { match f(cs.last()) { Some(a) => proj(cs.drop_last(), f).push(a), None => proj(cs.drop_last(), f) } }
+}
+
+pub proof fn lemma_proj_concat<A>(a: Seq<ChangeSpec>, b: Seq<ChangeSpec>, f: spec_fn(ChangeSpec) -> Option<A>)
+    ensures proj(a + b, f) == proj(a, f) + proj(b, f),
+    decreases b.len()
+{
+    if b.len() == 0 {
+        assert(a + b =~= a);
+        assert(proj(a, f) + proj(b, f) =~= proj(a, f));
+    } else {
+        lemma_proj_concat(a, b.drop_last(), f);
+        assert((a + b).drop_last() =~= a + b.drop_last());
+        assert((a + b).last() == b.last());
+        assert(proj(a + b, f) =~= proj(a, f) + proj(b, f));
+    }
+}
+
+/// `f` selects exactly the entries a..b and maps them to `out`
+pub proof fn lemma_proj_window<A>(cs: Seq<ChangeSpec>, f: spec_fn(ChangeSpec) -> Option<A>, a: int, b: int, out: Seq<A>)
+    requires 0 <= a <= b <= cs.len(), out.len() == b - a,
+        forall|k: int| 0 <= k < cs.len() ==> #[trigger] f(cs[k]) == (if a <= k < b { Some(out[k - a]) } else { None }),
+    ensures proj(cs, f) == out,
+    decreases cs.len()
+{
+    if cs.len() == 0 {
+        assert(out =~= Seq::<A>::empty());
+    } else {
+        let c0 = cs.drop_last(); let l = cs.len() - 1;
+        assert(f(cs[l]) == (if a <= l < b { Some(out[l - a]) } else { None }));
+        assert forall|k: int| 0 <= k < c0.len() implies c0[k] == cs[k] by {}
+        if l < b {
+            if a < b {
+                let out0 = out.drop_last();
+                assert forall|k: int| 0 <= k < c0.len() implies #[trigger] f(c0[k]) == (if a <= k < b - 1 { Some(out0[k - a]) } else { None }) by { assert(c0[k] == cs[k]); }
+                lemma_proj_window(c0, f, a, b - 1, out0);
+                assert(out0.push(out[l - a]) =~= out);
+            } else {
+                assert forall|k: int| 0 <= k < c0.len() implies #[trigger] f(c0[k]) == (if a - 1 <= k < b - 1 { Some(out[k - (a - 1)]) } else { None }) by { assert(c0[k] == cs[k]); }
+                lemma_proj_window(c0, f, a - 1, b - 1, out);
+            }
+        } else {
+            assert forall|k: int| 0 <= k < c0.len() implies #[trigger] f(c0[k]) == (if a <= k < b { Some(out[k - a]) } else { None }) by { assert(c0[k] == cs[k]); }
+            lemma_proj_window(c0, f, a, b, out);
+        }
+    }
+}
+
+/// op i contributes to the projection exactly the part of `target` between the prefix sums
+pub open spec fn op_proj_ok<A>(ops: Seq<DiffOp>, f: spec_fn(ChangeSpec) -> Option<A>, target: Seq<A>, old_side: bool, i: int) -> bool {
+    0 <= csum(ops, old_side, i) <= csum(ops, old_side, i + 1) <= target.len()
+    && proj(expand(ops[i]), f) == target.subrange(csum(ops, old_side, i), csum(ops, old_side, i + 1))
+}
+
+pub proof fn lemma_proj_expand_prefix<A>(ops: Seq<DiffOp>, f: spec_fn(ChangeSpec) -> Option<A>, target: Seq<A>, old_side: bool, k: int)
+    requires 0 <= k <= ops.len(), forall|i: int| 0 <= i < ops.len() ==> #[trigger] op_proj_ok(ops, f, target, old_side, i),
+    ensures 0 <= csum(ops, old_side, k) <= target.len(), proj(expand_all(ops.take(k)), f) == target.subrange(0, csum(ops, old_side, k)),
+    decreases k
+{
+    if k == 0 {
+        assert(ops.take(0) =~= Seq::<DiffOp>::empty());
+        assert(proj(expand_all(ops.take(0)), f) =~= target.subrange(0, 0));
+    } else {
+        lemma_proj_expand_prefix(ops, f, target, old_side, k - 1);
+        assert(op_proj_ok(ops, f, target, old_side, k - 1));
+        assert(ops.take(k) =~= ops.take(k - 1).push(ops[k - 1]));
+        lemma_expand_all_push(ops.take(k - 1), ops[k - 1]);
+        lemma_proj_concat(expand_all(ops.take(k - 1)), expand(ops[k - 1]), f);
+        assert(target.subrange(0, csum(ops, old_side, k - 1)) + target.subrange(csum(ops, old_side, k - 1), csum(ops, old_side, k))
+            =~= target.subrange(0, csum(ops, old_side, k)));
+    }
+}
+
+pub proof fn lemma_proj_expand_all<A>(ops: Seq<DiffOp>, f: spec_fn(ChangeSpec) -> Option<A>, target: Seq<A>, old_side: bool)
+    requires forall|i: int| 0 <= i < ops.len() ==> #[trigger] op_proj_ok(ops, f, target, old_side, i),
+        csum(ops, old_side, ops.len() as int) == target.len(),
+    ensures proj(expand_all(ops), f) == target,
+{
+    lemma_proj_expand_prefix(ops, f, target, old_side, ops.len() as int);
+    assert(ops.take(ops.len() as int) =~= ops);
+    assert(target.subrange(0, target.len() as int) =~= target);
+}
+
+/// where in `expand(op)` the entries of one side sit: old side 0..old_len; new side 0..len (Equal),
+/// 0..new_len (Insert), old_len..old_len+new_len (Replace: all its deletes come first)
+pub open spec fn win_start(op: DiffOp, old_side: bool) -> int { if !old_side && op is Replace { olen(op) } else { 0 } }
+pub open spec fn win_end(op: DiffOp, old_side: bool) -> int { win_start(op, old_side) + (if old_side { olen(op) } else { nlen(op) }) }
+
+/// 0, 1, .., n-1
+pub open spec fn iota(n: int) -> Seq<usize> { Seq::new(n as nat, |i: int| i as usize) }
+
+/// the index an entry carries for one side
+pub open spec fn sel_index(old_side: bool) -> spec_fn(ChangeSpec) -> Option<usize> {
+    |c: ChangeSpec| if old_side { c.old_index } else { c.new_index }
+}
+
+/// the token an entry's value is (a clone of): `ChangeSpec.idx` in the sequence `ChangeSpec.side_is_old` names
+pub open spec fn val_of<A>(c: ChangeSpec, old_t: Seq<A>, new_t: Seq<A>) -> A { if c.side_is_old { old_t[c.idx as int] } else { new_t[c.idx as int] } }
+
+/// the values of the changes that are not Insert (old side) / not Delete (new side)
+pub open spec fn sel_value<A>(old_side: bool, old_t: Seq<A>, new_t: Seq<A>) -> spec_fn(ChangeSpec) -> Option<A> {
+    |c: ChangeSpec| if c.tag != (if old_side { ChangeTag::Insert } else { ChangeTag::Delete }) { Some(val_of(c, old_t, new_t)) } else { None }
+}
+
+pub proof fn lemma_op_indices(ops: Seq<DiffOp>, n: int, m: int, old_side: bool, i: int)
+    requires idx_script(ops, n, m), 0 <= i < ops.len(),
+    ensures op_proj_ok(ops, sel_index(old_side), iota(if old_side { n } else { m }), old_side, i),
+{
+    lemma_script_op(ops, n, m, i);
+    let op = ops[i]; let f = sel_index(old_side); let target = iota(if old_side { n } else { m });
+    let lo = csum(ops, old_side, i); let hi = csum(ops, old_side, i + 1);
+    let out = target.subrange(lo, hi);
+    let a = win_start(op, old_side); let b = win_end(op, old_side);
+    lemma_expand_len(op);
+    assert forall|k: int| 0 <= k < expand(op).len() implies #[trigger] f(expand(op)[k]) == (if a <= k < b { Some(out[k - a]) } else { None }) by {
+        lemma_expand_index(op, k);
+    }
+    lemma_proj_window(expand(op), f, a, b, out);
+}
+
+pub proof fn lemma_op_values<A>(ops: Seq<DiffOp>, old_t: Seq<A>, new_t: Seq<A>, n: int, m: int, old_side: bool, i: int)
+    requires idx_script(ops, n, m), old_t.len() == n, new_t.len() == m, 0 <= i < ops.len(), !old_side ==> equal_ok(ops, old_t, new_t),
+    ensures op_proj_ok(ops, sel_value(old_side, old_t, new_t), if old_side { old_t } else { new_t }, old_side, i),
+{
+    lemma_script_op(ops, n, m, i);
+    let op = ops[i]; let f = sel_value(old_side, old_t, new_t); let target = if old_side { old_t } else { new_t };
+    let lo = csum(ops, old_side, i); let hi = csum(ops, old_side, i + 1);
+    let out = target.subrange(lo, hi);
+    let a = win_start(op, old_side); let b = win_end(op, old_side);
+    lemma_expand_len(op);
+    assert forall|k: int| 0 <= k < expand(op).len() implies #[trigger] f(expand(op)[k]) == (if a <= k < b { Some(out[k - a]) } else { None }) by {
+        lemma_expand_index(op, k);
+        if !old_side {
+            match op {
+                DiffOp::Equal { old_index, new_index, len } => { assert(old_t[old_index + k] == new_t[new_index + k]); }
+                _ => {}
+            }
+        }
+    }
+    lemma_proj_window(expand(op), f, a, b, out);
+}
+
+/// C04 "indices count tokens consecutively from zero on each side": in the whole-diff expansion the old indices
+/// of the entries that carry one are 0, 1, .., N-1 in this order, the new indices 0, 1, .., M-1
+pub proof fn lemma_expand_indices(ops: Seq<DiffOp>, n: int, m: int)
+    requires idx_script(ops, n, m),
+    ensures proj(expand_all(ops), sel_index(true)) == iota(n), proj(expand_all(ops), sel_index(false)) == iota(m),
+{
+    lemma_psum_mono(ops, 0, ops.len() as int);
+    assert forall|i: int| 0 <= i < ops.len() implies #[trigger] op_proj_ok(ops, sel_index(true), iota(n), true, i) by { lemma_op_indices(ops, n, m, true, i); }
+    lemma_proj_expand_all(ops, sel_index(true), iota(n), true);
+    assert forall|i: int| 0 <= i < ops.len() implies #[trigger] op_proj_ok(ops, sel_index(false), iota(m), false, i) by { lemma_op_indices(ops, n, m, false, i); }
+    lemma_proj_expand_all(ops, sel_index(false), iota(m), false);
+}
+
+/// C04 "Equal changes carry both indices, Delete only the old and Insert only the new one" for every entry of the
+/// whole-diff expansion (so "carries an old index" and "is not an Insert" select the same entries)
+pub proof fn lemma_expand_indices_carried(ops: Seq<DiffOp>, j: int)
+    requires 0 <= j < expand_all(ops).len(),
+    ensures ({ let c = expand_all(ops)[j];
+        (c.tag == ChangeTag::Equal ==> c.old_index is Some && c.new_index is Some)
+        && (c.tag == ChangeTag::Delete ==> c.old_index is Some && c.new_index is None)
+        && (c.tag == ChangeTag::Insert ==> c.old_index is None && c.new_index is Some) }),
+    decreases ops.len()
+{
+    if ops.len() > 0 {
+        if j >= expand(ops[0]).len() { lemma_expand_indices_carried(ops.drop_first(), j - expand(ops[0]).len()); }
+    }
+}
+
+/// C04: the values of all changes that are not Insert, in order, are the old tokens (under H-CLONE; their
+/// concatenation is the old text under H-TOK)
+pub proof fn lemma_reconstruct_changes_old<A>(ops: Seq<DiffOp>, old_t: Seq<A>, new_t: Seq<A>, n: int, m: int)
+    requires idx_script(ops, n, m), old_t.len() == n, new_t.len() == m,
+    ensures proj(expand_all(ops), sel_value(true, old_t, new_t)) == old_t,
+{
+    assert forall|i: int| 0 <= i < ops.len() implies #[trigger] op_proj_ok(ops, sel_value(true, old_t, new_t), old_t, true, i) by {
+        lemma_op_values(ops, old_t, new_t, n, m, true, i);
+    }
+    lemma_proj_expand_all(ops, sel_value(true, old_t, new_t), old_t, true);
+}
+
+/// C04: the values of all changes that are not Delete, in order, are the new tokens (an Equal change's value is
+/// read from the OLD sequence, so this needs H-EQ)
+pub proof fn lemma_reconstruct_changes_new<A>(ops: Seq<DiffOp>, old_t: Seq<A>, new_t: Seq<A>, n: int, m: int)
+    requires idx_script(ops, n, m), old_t.len() == n, new_t.len() == m, equal_ok(ops, old_t, new_t),
+    ensures proj(expand_all(ops), sel_value(false, old_t, new_t)) == new_t,
+{
+    assert forall|i: int| 0 <= i < ops.len() implies #[trigger] op_proj_ok(ops, sel_value(false, old_t, new_t), new_t, false, i) by {
+        lemma_op_values(ops, old_t, new_t, n, m, false, i);
+    }
+    lemma_proj_expand_all(ops, sel_value(false, old_t, new_t), new_t, false);
+}
+
+/// bytes: concatenating the values of a token list is `cat`; so with H-TOK the two lemmas above give
+/// "concatenating in order the values of all changes that are not Insert reproduces the old text exactly"
+pub proof fn lemma_reconstruct_changes_bytes(ops: Seq<DiffOp>, old_t: Seq<Seq<u8>>, new_t: Seq<Seq<u8>>, n: int, m: int, old_text: Seq<u8>, new_text: Seq<u8>)
+    requires idx_script(ops, n, m), old_t.len() == n, new_t.len() == m, equal_ok(ops, old_t, new_t),
+        tokens_partition(old_text, old_t), tokens_partition(new_text, new_t),
+    ensures ({ let vo = proj(expand_all(ops), sel_value(true, old_t, new_t)); let vn = proj(expand_all(ops), sel_value(false, old_t, new_t));
+        cat(vo, 0, vo.len() as int) == old_text && cat(vn, 0, vn.len() as int) == new_text }),
+{
+    lemma_reconstruct_changes_old(ops, old_t, new_t, n, m);
+    lemma_reconstruct_changes_new(ops, old_t, new_t, n, m);
+}
+
+/// non-vacuity witness: a concrete script with a Replace satisfies `idx_script`, and the lemmas' conclusions can be
+/// read off it (old tokens a b, new tokens a c d)
+pub proof fn lemma_reconstruct_example()
+    ensures ({
+        let ops = seq![DiffOp::Equal { old_index: 0, new_index: 0, len: 1 }, DiffOp::Replace { old_index: 1, old_len: 1, new_index: 1, new_len: 2 }];
+        let old_t = seq![seq![97u8], seq![98u8]]; let new_t = seq![seq![97u8], seq![99u8], seq![100u8]];
+        idx_script(ops, 2, 3) && equal_ok(ops, old_t, new_t)
+        && side_toks(ops, old_t, true, 2) == old_t && side_toks(ops, new_t, false, 2) == new_t
+        && side_bytes(ops, old_t, true, 2) == seq![97u8, 98u8] && side_bytes(ops, new_t, false, 2) == seq![97u8, 99u8, 100u8]
+        && expand_all(ops).len() == 4 }),
+{
+    let ops = seq![DiffOp::Equal { old_index: 0, new_index: 0, len: 1 }, DiffOp::Replace { old_index: 1, old_len: 1, new_index: 1, new_len: 2 }];
+    let old_t = seq![seq![97u8], seq![98u8]]; let new_t = seq![seq![97u8], seq![99u8], seq![100u8]];
+    reveal_with_fuel(osum, 4); reveal_with_fuel(nsum, 4); reveal_with_fuel(cat, 5);
+    assert(osum(ops, 0) == 0 && osum(ops, 1) == 1 && osum(ops, 2) == 2 && nsum(ops, 0) == 0 && nsum(ops, 1) == 1 && nsum(ops, 2) == 3);
+    assert(at_cursor(ops, 0) && at_cursor(ops, 1));
+    assert(idx_script(ops, 2, 3));
+    assert(old_t[0] == new_t[0]);
+    assert(equal_ok(ops, old_t, new_t));
+    lemma_reconstruct_old(ops, old_t, 2, 3);
+    lemma_reconstruct_new(ops, new_t, 2, 3);
+    lemma_side_bytes_prefix(ops, old_t, true, 2, 3, 2);
+    lemma_side_bytes_prefix(ops, new_t, false, 2, 3, 2);
+    assert(cat(old_t, 0, 2) =~= seq![97u8, 98u8]);
+    assert(cat(new_t, 0, 3) =~= seq![97u8, 99u8, 100u8]);
+    lemma_expand_all_push(seq![ops[0]], ops[1]);
+    lemma_expand_all_push(Seq::<DiffOp>::empty(), ops[0]);
+    assert(Seq::<DiffOp>::empty().push(ops[0]) =~= seq![ops[0]]);
+    assert(seq![ops[0]].push(ops[1]) =~= ops);
+    assert(expand_all(Seq::<DiffOp>::empty()).len() == 0);
+}
+
 } // verus!
